@@ -79,7 +79,7 @@ RULE = ("problems: 0-40 vertices (0-3 units of 1-3 resources, some needing nothi
         "clause; a small out-of-domain stream (correspondence only). Each problem is run through sequential (default and "
         "custom orders), breadth-first, Hilbert (both modes), RCM, random, annealing with the Python kernel (recorded "
         "step by step) and the C kernel. A case is non-trivial when at least one placer returned a placement of >= 2 "
-        "vertices on a machine with >= 2 working chips and the problem has at least one constraint; 40 (thorough: 600) problems with exactly 0 / 1 / 2 movable vertices (all others location-constrained; nets between pinned vertices on different chips, between movable and pinned ones, self loops, zero weights; every effort incl. 0) whose anneals run to their own end without a bounding callback under a 20 s CPU limit; plus two (thorough: four) unplaceable chains of 300-1500 pairwise same-chip constraints; plus whole anneals (unbounded "
+        "vertices on a machine with >= 2 working chips and the problem has at least one constraint; 40 (thorough: 300) problems with exactly 0 / 1 / 2 movable vertices (all others location-constrained; nets between pinned vertices on different chips, between movable and pinned ones, self loops, zero weights; every effort incl. 0) whose anneals run to their own end without a bounding callback under a 20 s CPU limit; plus two (thorough: four) unplaceable chains of 300-1500 pairwise same-chip constraints; plus whole anneals (unbounded "
         "number of temperatures) of one net of weight 100 among a ring of nets of weight 0.01 on machines 8x8..12x12 "
         "(thorough: up to 24x24, 62 vertices)")
 
@@ -1135,7 +1135,7 @@ def run(ctx):
         "custom vertex orders are permutations of the vertices (documented precondition of sequential.place)",
         "completeness clause read as: one resource r0, every vertex needs 0 or 1 unit of r0 and nothing else, at least one working chip",
         "termination of the annealing temperature schedule is bounded by the harness through on_temperature_change"]
-    n = ctx.scale(1500, 30000)
+    n = ctx.scale(1500, 27000)
     if ctx.extended:
         n *= 4
     rng = ctx.rng
@@ -1158,7 +1158,7 @@ def run(ctx):
         ctx.tag("hetero-weights-problem")
         eval_problems(ctx, [prob])
     # exactly 0 / 1 / 2 movable vertices, anneals without a bounding callback
-    pinned = [gen_pinned(rng) for _ in range(ctx.scale(40, 600) * (4 if ctx.extended else 1))]
+    pinned = [gen_pinned(rng) for _ in range(ctx.scale(40, 300) * (4 if ctx.extended else 1))]
     for i in range(0, len(pinned), 50):
         eval_problems(ctx, pinned[i:i + 50])
     # same-chip chains deeper than the interpreter's recursion limit allows to print recursively, unplaceable
